@@ -1,14 +1,16 @@
 #!/usr/bin/env python3
 """Run every kept seeded change against the check of its property (scratch copy of /repo, never /repo itself) and
-record the outcome in seeded/RESULTS.json (+ a table in seeded/RESULTS.md). usage: run_all_seeded.py [seed-id ...]"""
+record the outcome in seeded/RESULTS.json (+ a table in seeded/RESULTS.md). usage: run_all_seeded.py [--in-repo] [--md-only] [seed-id ...]  (SEEDED_RESULTS=<file> writes the outcomes elsewhere, for parallel runs)"""
 import json, os, subprocess, sys, re, time
 V = '/verif'
 man = json.load(open(V + '/MANIFEST.json'))
 claimed = {c['property_id'] for c in man['checks']}
 IN_REPO = '--in-repo' in sys.argv
 sys.argv = [a for a in sys.argv if a != '--in-repo']
-seeds = sys.argv[1:] or sorted(d for d in os.listdir(V + '/seeded') if os.path.isdir(V + '/seeded/' + d) and not d.startswith('_'))
-resp = V + '/seeded/RESULTS.json'
+MD_ONLY = '--md-only' in sys.argv
+sys.argv = [a for a in sys.argv if a != '--md-only']
+seeds = [] if MD_ONLY else sys.argv[1:] or sorted(d for d in os.listdir(V + '/seeded') if os.path.isdir(V + '/seeded/' + d) and not d.startswith('_'))
+resp = os.environ.get('SEEDED_RESULTS', V + '/seeded/RESULTS.json')
 res = json.load(open(resp)) if os.path.exists(resp) else {}
 for s in seeds:
     meta = json.load(open('%s/seeded/%s/meta.json' % (V, s)))
@@ -46,8 +48,12 @@ for s in seeds:
     print(s, res[s]['outcome'], res[s]['why'], flush=True)
     json.dump(res, open(resp, 'w'), indent=1, sort_keys=True)
 json.dump(res, open(resp, 'w'), indent=1, sort_keys=True)
+def nat(s):
+    a, b = s.split('-'); return (a, int(b))
+res = {k: v for k, v in res.items() if os.path.isdir(V + '/seeded/' + k)}
+json.dump(res, open(resp, 'w'), indent=1, sort_keys=True)
 with open(V + '/seeded/RESULTS.md', 'w') as f:
     f.write('| seed | property | outcome | concrete replay | what the check reported |\n|---|---|---|---|---|\n')
-    for s in sorted(res):
+    for s in sorted(res, key=nat):
         r = res[s]
         f.write('| %s | %s | %s | %s | %s |\n' % (s, r['property'], r['outcome'], r.get('concrete_replay', ''), (r.get('why') or '').replace('|', '/').replace('\n', ' ')))
